@@ -326,6 +326,58 @@ def case_variant_tree(t):
                     return True
     return False
 SCORES = ["-1", "0", "1", "1.5", "-0.25", "2e-05", "1e+20", "3.14159", "-7", "0.5", "inf", "-inf"]
+# SCORE TEXT.  Inside the quantifier ("scores as printed"): a text that '{:g}'.format(float(text)) reproduces, i.e. a text
+# that is itself :g output.  Candidates are split by that test when the module is loaded.
+SCORE_CANDIDATES = [
+    "0", "-0", "1", "-1", "5", "-3", "-7", "10", "100000", "999999", "123456", "-123456",        # whole numbers
+    "1e+06", "-1e+06", "1.23457e+06", "1e+07", "9.99999e+06", "1e+15", "1e+16", "1e+20", "1e+100", "1e+308",
+    "1.79769e+308", "-1.79769e+308",                                                             # exponent, large
+    "0.0001", "0.000123457", "0.00099", "1e-05", "2e-05", "9.99999e-05", "1.23457e-05", "-1e-05", "1e-10", "1e-300",
+    "2.22507e-308", "4.94066e-324", "-4.94066e-324",                                             # exponent, small
+    "1.5", "-0.25", "0.5", "0.1", "0.333333", "-0.666667", "1.23457", "3.14159", "12345.6", "99999.9", "0.999999",
+    "123457", "1.00001", "100001",                                                               # six significant digits
+    "inf", "-inf", "nan",
+    # near misses: accepted by float() but not :g output (only compared, never demanded verbatim)
+    "1e6", "1E+06", "1e+6", "1e+006", "1.0", "-1.0", "+1", "1000000", "10000000", "0.00001", "-0.0", "0.0", "00", "01.50",
+    ".5", "5.", "1.2345678", "1.234565", "0.1234565", "999999.5", "1234567", "Infinity", "-Infinity", "+inf", "INF", "NaN",
+    "-nan", "1e400", "-1e400", "1e-400", "-1e-400", "5e-324", "1e+0", "1e0", "2E-05", "2e-5", "1.50", "1e-04", "0.0001000",
+]
+SCORE_INVALID = ["1_0", "1__0", "\u0661", "\uff11", "0x10", "1e", "e5", "--1", "+-1", "1e+", ".", "-", "in", "1.2.3", "1,5"]
+
+
+def _g_fixpoint(x):
+    try:
+        return "{:g}".format(float(x)) == x
+    except ValueError:
+        return False
+
+
+SCORE_FIX = [x for x in SCORE_CANDIDATES if _g_fixpoint(x)]
+SCORE_NEAR = [x for x in SCORE_CANDIDATES if not _g_fixpoint(x)]
+assert all(_g_fixpoint(x) for x in SCORES) and len(SCORE_FIX) >= 50 and len(SCORE_NEAR) >= 35
+
+
+def naive_text(t, indent, udx, level=1):
+    """the UDF/UDX text of a case tree written with plain string operations from the case's own fields -- the score
+    is the case's score TEXT, never a float passed through a format"""
+    delim = " " if indent is None else "\n" + " " * (indent * level)
+    if t["k"] == "t":
+        return "(" + delim.join(['"' + uncps(t["f"]) + '"'] + [str(i) + ' "' + uncps(x) + '"' for i, x in t["toks"]]) + ")"
+    ent = uncps(t["e"])
+    if udx and t["k"] == "n":
+        if t["h"]:
+            ent = "^" + ent
+        if t["ty"]:
+            ent = ent + "@" + uncps(t["ty"])
+    dtrs = "".join(delim + naive_text(d, indent, udx, level + 1) for d in t["d"])
+    if t["k"] == "r":
+        return "(" + ent + dtrs + ")"
+    return "(" + " ".join([str(t["id"]), ent, uncps(t["sc"]), str(t["st"]), str(t["en"])]) + dtrs + ")"
+
+
+def scores_printed(t):
+    """every score of the case tree is :g output (inside the quantifier of the text clause)"""
+    return all(_g_fixpoint(uncps(n["sc"])) for n in walk(t) if n["k"] == "n")
 FORMS = ["x", "dog", "the", "ad hoc", "", "a b", "(", ")", "a(b", "say \\\"hi\\\"", "back\\\\slash", "é", "x ",
          " y", "1", "a b c", "\\\\", "\\\"", "it's", "[", "a  b"]
 TFS_PARTS = ["token", "[", "]", "+FORM", "\\\"dog\\\"", "+FROM", "\\\"0\\\"", "\\\\", "(", ")", "\\\"(\\\"", "a",
@@ -411,7 +463,7 @@ class Gen:
         e = rng.choice(ENTS[:N_PLAIN_ENTS] if rng.random() < 0.9 else ENTS)
         if self.fam and rng.random() < 0.7:
             e = rng.choice(self.fam)
-        sc = rng.choice(SCORES)
+        sc = rng.choice(SCORES) if rng.random() < 0.6 else rng.choice(SCORE_FIX)
         h = rng.random() < 0.35
         ty = rng.choice(TYPES) if rng.random() < 0.35 else None
         if self.tfam and rng.random() < 0.6:
@@ -657,7 +709,7 @@ def vary(rng, t, op):
         if op == "id":
             n["id"] = n["id"] + rng.choice([1, -1, 1000, 2**31])
         elif op == "score":
-            n["sc"] = cps(rng.choice([x for x in SCORES if cps(x) != n["sc"]]))
+            n["sc"] = cps(rng.choice([x for x in SCORES + SCORE_FIX if cps(x) != n["sc"]]))
         elif op == "case":
             e = uncps(n["e"])
             if e.swapcase() == e or e.swapcase().lower() != e.lower():
@@ -760,7 +812,10 @@ class C16(Check):
             "2^31, 2^32, 2^63; odd white space and line-boundary characters inside forms and tfs strings; size "
             "cases (40 tokens, 30 daughters, depth 25, 5000-character strings); one `api` battery (constructors, "
             "defaults, foreign-object comparisons, error branches); in-place edit of the daughters list followed by "
-            "every helper again; sub-node serialization/parsing/navigation.")
+            "every helper again; sub-node serialization/parsing/navigation.  Round 7: scores are drawn from 54 spellings "
+            "that are :g output (exponent notation, -0, whole numbers, six significant digits, extreme magnitudes, "
+            "inf/nan), each also deterministically; the oracle compares the real text with a text written from the "
+            "case's own score text; 39 near-miss and 15 invalid spellings as `score` text cases.")
     assumptions = [
         "scores are compared as '{:g}'.format(score) text; the float <-> text conversion is exercised on the "
         "implementation side only (model carries the printed text)",
@@ -866,6 +921,20 @@ class C16(Check):
     # ---- cases
     def cases(self, rng, tier, n):
         yield {"kind": "api"}
+        # SCORE TEXT: every :g spelling on a bare node, under a root and on three levels at once, every indentation
+        for i, sc in enumerate(SCORE_FIX):
+            pre = N(1, "a", sc, 0, 1, [T("x", [(1, "t")])], i % 2 == 0, "ty" if i % 3 == 0 else None)
+            yield {"kind": "tree", "tree": pre, "indent": INDENTS[i % 5], "fields": None}
+            sc2, sc3 = SCORE_FIX[(i + 7) % len(SCORE_FIX)], SCORE_FIX[(i + 19) % len(SCORE_FIX)]
+            yield {"kind": "tree", "indent": INDENTS[(i + 2) % 5], "fields": FIELD_SETS[i % len(FIELD_SETS)],
+                   "tree": R("root", [N(1, "a", sc, 0, 2, [N(2, "b", sc2, 0, 1, [T("x")], True),
+                                                            N(3, "c", sc3, 1, 2, [T("y", [(2, sc)])])])])}
+        # near misses (float() accepts them, :g writes them differently) and spellings float() rejects: texts
+        for i, sc in enumerate(SCORE_NEAR + SCORE_INVALID):
+            inner_ = '(1 ^a@t %s 0 1 ("x" 1 "t"))' % sc if i % 2 else '(1 a %s 0 1 ("x"))' % sc
+            yield {"kind": "score", "s": cps(inner_), "sc": sc}
+            yield {"kind": "score", "s": cps('(root (1 a -1 0 2 (2 b %s 0 1 ("x")) (3 c %s 1 2 ("y"))))'
+                                             % (sc, SCORE_FIX[i % len(SCORE_FIX)])), "sc": sc}
         small = enum_small_trees()
         erng_ws = random.Random(61)
         for i, t in enumerate(small):
@@ -1004,7 +1073,7 @@ class C16(Check):
                     "terminals": [obs(x) for x in top.terminals()],
                     "preterminals": [obs(x) for x in top.preterminals()],
                     "internals": [obs(x) for x in top.internals()]}
-        if k in ("text", "lkb", "ws"):
+        if k in ("text", "lkb", "ws", "score"):
             s = uncps(case["s"])
             evs = []
             for m in D._udf_re.finditer(s[1:]):
@@ -1041,7 +1110,7 @@ class C16(Check):
             return None
         if k == "eq":
             return {"op": "eq", "a": case["a"], "b": case["b"]}
-        if k in ("text", "lkb", "ws"):
+        if k in ("text", "lkb", "ws", "score"):
             return {"op": "text", "s": case["s"]}
         return {"op": "dict", "d": case["d"]}
 
@@ -1105,6 +1174,32 @@ class C16(Check):
                 fail("a text with other white space between items does not parse to the same tree", repr(s))
             elif (p.to_udx(indent=None) if case["udx"] else p.to_udf(indent=None)) != case["plain"]:
                 fail("a text with other white space between items is not re-serialized to the plain text", repr(s))
+        elif k == "score":
+            # a score spelling that is not :g output: float() decides whether the text parses; if it does, the score
+            # is written as :g from then on and THAT text is reproduced at every indentation
+            s = uncps(case["s"])
+            try:
+                float(case["sc"])
+                valid = True
+            except ValueError:
+                valid = False
+            r = guarded(lambda: D.from_string(s))
+            if valid != ("ok" in r):
+                fail("from_string accepts exactly the score spellings float() accepts", repr((s, r.get("err"))))
+            elif valid:
+                p = r["ok"]
+                udx = "^" in s
+                ser = (lambda o, i: o.to_udx(indent=i)) if udx else (lambda o, i: o.to_udf(indent=i))
+                want = s.replace(" %s " % case["sc"], " %s " % g(float(case["sc"])), 1)
+                if ser(p, None) != want:
+                    fail("a score that is not :g output is not rewritten as :g (and nothing else changed)",
+                         repr((s, ser(p, None))))
+                for i in INDENTS:
+                    q = D.from_string(ser(p, i))
+                    for j in INDENTS:
+                        if ser(q, j) != ser(p, j):
+                            fail("the rewritten score text is not reproduced at every indentation", repr((s, i, j)))
+                            break
         elif k == "lkb":
             # LKB-style terminals: positions are ignored, the tree is the token-free tree
             s = uncps(case["s"])
@@ -1128,7 +1223,7 @@ class C16(Check):
                     fail("unexpected TypeError", key)
         # PURITY for texts and dictionaries: the same input gives the same result after a call on the
         # case-swapped input
-        if k in ("text", "lkb", "ws"):
+        if k in ("text", "lkb", "ws", "score"):
             s = uncps(case["s"])
             r1 = guarded(lambda: obs(D.from_string(s)))
             r_sw = guarded(lambda: obs(D.from_string(s.swapcase())))
@@ -1564,15 +1659,20 @@ class C16(Check):
             name = "udx" if udx else "udf"
             ser = (lambda o, i: o.to_udx(indent=i)) if udx else (lambda o, i: o.to_udf(indent=i))
             ref = top if udx else erased
+            printed = scores_printed(t)
             for ind in INDENTS:
                 text = ser(top, ind)
+                if printed and text != naive_text(t, ind, udx):
+                    # the text of the derivation as the property means it: scores as printed (the case's own text)
+                    fail("to_%s(t) is not the text of t with its scores as printed" % name,
+                         repr((ind, text[:200], naive_text(t, ind, udx)[:200])))
                 try:
-                    p = D.from_string(text)
+                    p = D.from_string(text if not printed else naive_text(t, ind, udx))
                 except Exception as e:
                     fail("from_string(to_%s(t)) raises" % name, repr((text, type(e).__name__, str(e)[:80])))
                     continue
                 for i2 in INDENTS:
-                    if ser(p, i2) != ser(top, i2):
+                    if ser(p, i2) != (naive_text(t, i2, udx) if printed else ser(top, i2)):
                         fail("to_%s(from_string(to_%s(t))) differs from to_%s(t)" % (name, name, name),
                              repr((ind, i2, text, ser(p, i2))))
                         break
@@ -1591,7 +1691,7 @@ class C16(Check):
                     if not mixed(t) and real_heads(p) != real_heads(ref):
                         fail("is_head() of the parsed %s tree differs from the original's" % name, repr(text))
                 # str() is to_udf(indent=None)
-            if str(top) != top.to_udf(indent=None):
+            if str(top) != top.to_udf(indent=None) or (printed and str(top) != naive_text(t, None, False)):
                 fail("str(t) is not to_udf(indent=None)", "")
         self._nav(top, shape, "constructed", fail)
         self._parents(top, "constructed", fail)
@@ -1717,6 +1817,18 @@ class C16(Check):
             fl = case.get("fields")
             inc("fields:" + ("default" if fl is None else "invalid-name" if any(f not in ALL_FIELDS for f in fl)
                              else "n=%d" % len(set(fl) & set(OPTIONAL_FIELDS))))
+        if k == "score":
+            inc("score:near-miss-or-invalid")
+            if isinstance(res, dict):
+                inc("score:parse=%s" % res["parse"].get("err", "ok"))
+        if k == "tree":
+            for n in walk(case["tree"]):
+                if n["k"] == "n":
+                    x = uncps(n["sc"])
+                    inc("score:" + ("not-g-output" if not _g_fixpoint(x) else "inf-nan" if x.lstrip("-") in ("inf", "nan")
+                                    else "exponent" if "e" in x else "negative-zero" if x == "-0"
+                                    else "whole" if "." not in x else "six-digits" if len(x.replace("-", "").replace(".", "").lstrip("0")) == 6
+                                    else "decimal"))
         if k == "eq":
             inc("eq:op=" + case["op"])
             inc("eq:" + ("mixed" if mixed(case["a"]) or mixed(case["b"]) else "uniform"))
